@@ -2014,7 +2014,11 @@ class AllConnGraph(nx.DiGraph):
         if pinfo is None:
             src_indices = src_shape = None
         else:
+            # one promotes() call may cover several inputs: each edge gets its own index object,
+            # because the object is bound to the shape of the source it is applied to
             src_indices = pinfo.src_indices
+            if src_indices is not None:
+                src_indices = src_indices.copy()
             src_shape = pinfo.src_shape
 
         self.check_add_edge(group, src, tgt, src_indices=src_indices)
@@ -2713,8 +2717,8 @@ class AllConnGraph(nx.DiGraph):
         shape = parent_meta.shape
 
         if not (src_indices is None or shape is None):
-            if src_indices._src_shape is None:
-                src_indices.set_src_shape(shape)
+            # (re)bind to the current source shape: it may differ from the one seen in an earlier setup
+            src_indices.set_src_shape(shape)
             shape = src_indices.indexed_src_shape
             if val is not None:
                 val = src_indices.indexed_val(np.atleast_1d(val))
@@ -2770,8 +2774,7 @@ class AllConnGraph(nx.DiGraph):
             tgt_shape = tgt_meta.shape
 
             if src_indices is not None and src_shape is not None:
-                if src_indices._src_shape is None:
-                    src_indices.set_src_shape(src_shape)
+                src_indices.set_src_shape(src_shape)
                 src_shape = src_indices.indexed_src_shape
                 if src_val is not None:
                     src_val = src_indices.indexed_val(np.atleast_1d(src_val))
